@@ -36,8 +36,14 @@ EXPLANATION = (
     "not return), or the node's own cap (get_uri() / <cap>.to_string()) only where the node is read-only: "
     "is_readonly() constantly True for every class that inherits the method, or the return sits on an "
     "'is_readonly()' edge; a class-body alias of the method is judged as the aliased method, re-binding it on an "
-    "object is refused. "
-    "Undecided: that the salt keeps its 16-byte width (a truncated salt makes key streams collide),  AES/SHA-256 strength, that uri.from_string(readcap) yields a read-only cap object and that <cap>.get_readonly() drops the writekey (C16.1), which caps UnknownNode.__init__ lets into its ro slot (C16.11/C16.12), what wrappers answer for is_readonly() (ProhibitedNode delegates; a wrong answer misreports but does not add authority), get_readcap() / MutableFileNode.get_readonly() where nothing but (9) uses them, "
+    "object is refused; "
+    "(10, = C16.11/C16.12, abstract interpretation of UnknownNode.__init__ with the given caps as tokens and per-path "
+    "prefix / parse facts) the string an UnknownNode keeps in its ro slot - which (9) lets get_readonly_uri() answer and "
+    "the packer stores in clear - is made from the cap given in the write slot only on paths that found the 'ro.' or "
+    "'imm.' prefix on that cap (on every other path the node stays opaque, so a recorded refusal that execution falls "
+    "through, or that is overwritten later, cannot turn into an accepted child), and from any given cap only on paths "
+    "that passed it through uri.from_string and found no refusal. "
+    "Undecided: that the salt keeps its 16-byte width (a truncated salt makes key streams collide),  AES/SHA-256 strength, that uri.from_string(readcap) yields a read-only cap object and that <cap>.get_readonly() drops the writekey (C16.1), that an UnknownNode with a recorded error is refused by every consumer (raise_error() callers: C19/C16), what wrappers answer for is_readonly() (ProhibitedNode delegates; a wrong answer misreports but does not add authority), get_readcap() / MutableFileNode.get_readonly() where nothing but (9) uses them, "
     "CTR-mode length leak of the rw slot (ticket #925); what the HMAC trailer is computed over and in which "
     "argument order (any hash of key/cap material is treated as one-way); that writer and reader derive the same "
     "key (argument order of mutable_rwcap_key_hash, slice widths: C19.3 / C17.6); the ro./imm. prefix "
@@ -45,7 +51,8 @@ EXPLANATION = (
     "keys a packer call is the node the packed bytes are written to; refusal of non-empty rw slots and of "
     "mutable children in immutable directories (C19).")
 TECHNIQUE = ("static analysis: CFG gate rules, def-use closures with sanitiser cuts, sibling agreement over node classes, "
-             "interprocedural parameter->return dependency summaries")
+             "interprocedural parameter->return dependency summaries, path-sensitive abstract interpretation of "
+             "UnknownNode.__init__ (shared with C16)")
 
 DN = "dirnode:DirectoryNode"
 READONLY_CALL = re.compile(r"^(self|filecap)(\.\w+)?\.is_readonly\(\)$")
@@ -143,6 +150,7 @@ def return_nodes(fn):
     return [n for n in fn.cfg().find(is_return) if n.id in fn.cfg().reachable_nodes()]
 
 FRESH_RANDOMNESS = {"urandom", "token_bytes", "randbytes"}
+_ADOPTING = False       # re-entrancy guard of the C16 adoption at the end of run()
 
 
 class ParamFlow:
@@ -992,3 +1000,20 @@ def run(ctx: Context):
                     judge([ci] + idx.subclasses(ci), tgt, "%s.get_readonly_uri, bound to %s," % (ci.name, short(tgt)))
         for (f2, nd) in get_callgraph(idx).attr_stores("get_readonly_uri"):
             r.violation(f2, f2.loc(nd), "%s re-binds get_readonly_uri on an object" % short(f2))
+
+    # -- 10. what an UnknownNode lets into its ro slot ------------------------------
+    # C18.9 accepts UnknownNode.get_readonly_uri() == self.ro_uri because the slot is not the write slot; the string in
+    # it is packed in clear all the same.  Which of the two given caps may get there, on which paths of __init__, is the
+    # condition C16.11 / C16.12 decide by abstract interpretation of the constructor (given caps as tokens, per-path
+    # facts 'carries ro./imm.', 'parse refused'): the cap given in the write slot only where the path found an alleged
+    # read-only / immutable prefix on it (otherwise the node stays opaque: both slots None, whatever happens to
+    # self.error afterwards), and any cap only where uri.from_string's refusal was looked at and was empty.
+    # Adopted as C18.10.11 / C18.10.12.  (C16 includes nothing; the flag keeps this terminating should it ever adopt
+    # rules of this property in turn.)
+    global _ADOPTING
+    if not _ADOPTING:
+        _ADOPTING = True
+        try:
+            ctx.include("C16", ["C16.11", "C16.12"], "C18.10")
+        finally:
+            _ADOPTING = False
